@@ -19,6 +19,9 @@ Implementation-side oracles (no model; the theorems' conclusions evaluated on th
   O1  live matrices: V W = I, W V = I, W E V = diag(d) with tolerance scaled by N/alpha;
   O2  live QDiagonalization.update_nodes on linear problems vs a 30-digit solve of
       (G (x) I - dt Q (x) A) x = r;
+  O2b ONE sweeper object walked with the public set_G_inv through the factors of several (n_steps, alpha): after each
+      call params.G_inv is the argument, update_nodes solves the system of that factor and equals a sweeper constructed
+      with it (C15_set_G_inv_frame, C15_one_shot_after_set_G_inv); controllers retuned to another alpha vs sequential;
   O3  one real it_ParaDiag from the spread initial guess: the increment solves the alpha-circulant system;
   O4  converged controller_ParaDiag_nonMPI runs (scalar/vector Dahlquist, heat, advection; IMEX;
       averaged Jacobian on/off; 1..5 RADAU-RIGHT nodes) vs sequential collocation time stepping,
@@ -41,7 +44,7 @@ LEVEL = 'proof'
 REQUIRED = ['C15_weighted_fft_inverse', 'C15_weighted_fft_inverse_right', 'C15_weighted_fft_closed_form',
             'C15_weighted_ifft_closed_form', 'C15_diagonalises_alpha_circulant', 'C15_local_factor_is_eigenvalue',
             'C15_G_inverse_closed_form', 'C15_qdiag_one_shot', 'C15_paradiag_increment_solves_alpha_system',
-            'C15_paradiag_fixed_point_is_sequential', 'C15_paradiag_error_equation', 'C15_gaussian_rationals_field', 'C15_nonvacuous_roots',
+            'C15_paradiag_fixed_point_is_sequential', 'C15_paradiag_error_equation', 'C15_set_G_inv_frame', 'C15_one_shot_after_set_G_inv', 'C15_gaussian_rationals_field', 'C15_nonvacuous_roots',
             'C15_nonvacuous_one_shot', 'C15_nonvacuous_fixed_point']
 
 EPS = 2.0 ** -52
@@ -506,6 +509,36 @@ def pp_repr(pp):
     return {k: ([str(x) for x in v] if isinstance(v, np.ndarray) else v) for k, v in pp.items()}
 
 
+
+def exact_local_solve(mp, M, n, d_l, Q, As, dt, r):
+    """40-digit solution of (G (x) I - dt Q (x) As) x = r with G = d_l H + I."""
+    K = mp.matrix(M * n, M * n)
+    for a in range(M):
+        for b in range(M):
+            g_ab = (1 if a == b else 0) + (d_l if b == M - 1 else 0)
+            for i in range(n):
+                K[a * n + i, b * n + i] += g_ab
+                for j in range(n):
+                    if As[i, j] != 0:
+                        K[a * n + i, b * n + j] -= mp.mpf(float(dt)) * mp.mpf(float(Q[a, b])) * mp.mpc(complex(As[i, j]))
+    rhs = mp.matrix([mp.mpc(complex(v)) for v in np.asarray(r).flatten()])
+    x = mp.lu_solve(K, rhs)
+    return np.array([complex(v) for v in x]).reshape(M, n)
+
+
+def live_update_nodes(lvl, r):
+    """Put r into level.residual, call the real update_nodes, return level.increment as an (M, n) array."""
+    P = lvl.prob
+    M = r.shape[0]
+    lvl.status.unlocked = True
+    lvl.status.time = 0.0
+    for m in range(M):
+        lvl.residual[m] = P.u_init
+        lvl.residual[m][:] = r[m].reshape(lvl.residual[m].shape)
+    lvl.sweep.update_nodes()
+    return np.array([np.asarray(lvl.increment[m]).flatten() for m in range(M)])
+
+
 # ----------------------------------------------------------------------------- O2 sweeper one-shot
 
 def check_sweeper_one_shot(ck, I, mp):
@@ -542,18 +575,7 @@ def check_sweeper_one_shot(ck, I, mp):
             # exact: (G (x) I - dt Q (x) A) x = r with G = d_l H + I, d_l from the model
             _, _, d, _, _, _ = model_closed_forms(L, alpha, mp)
             Q = np.asarray(sw.coll.Qmat[1:, 1:], dtype=float)
-            K = mp.matrix(M * n, M * n)
-            for a in range(M):
-                for b in range(M):
-                    g_ab = (1 if a == b else 0) + (d[l] if b == M - 1 else 0)
-                    for i in range(n):
-                        K[a * n + i, b * n + i] += g_ab
-                        for j in range(n):
-                            if As[i, j] != 0:
-                                K[a * n + i, b * n + j] -= mp.mpf(float(dt)) * mp.mpf(float(Q[a, b])) * mp.mpc(complex(As[i, j]))
-            rhs = mp.matrix([mp.mpc(complex(v)) for v in r.flatten()])
-            x_ref = mp.lu_solve(K, rhs)
-            x_ref = np.array([complex(v) for v in x_ref]).reshape(M, n)
+            x_ref = exact_local_solve(mp, M, n, d[l], Q, As, dt, r)
             scale = np.abs(x_ref).max()
             condS = float(np.linalg.cond(sw.S))
             e = np.abs(x_live - x_ref).max() / scale
@@ -571,6 +593,139 @@ def check_sweeper_one_shot(ck, I, mp):
             ck.violation('one-shot-sweep raised %s: %s' % (type(ex).__name__, str(ex)[:200]), {'seed': ck.seed, 'locals': {k: str(v)[:300] for k, v in locals().items() if k in ('kind', 'pp', 'dt', 'L', 'M', 'alpha', 'l')}},
                          match={'kind': 'exception', 'stage': 'one-shot-sweep', 'exception': type(ex).__name__})
     ck.cov['one_shot_max_rel_error_over_condS'] = worst
+
+
+
+# ----------------------------------------------------------------------------- O2b set_G_inv: state is a function of the last argument
+
+def check_set_G_inv(ck, I, mp):
+    """C15_set_G_inv_frame / C15_one_shot_after_set_G_inv on the implementation.
+    (a) ONE sweeper object is walked with the public set_G_inv through the per-step factors of several (L, alpha)
+        (with repeats and returns to earlier factors); after every call: params.G_inv is the argument, update_nodes
+        solves the local system of THAT factor (40-digit solve), and the result equals that of a sweeper
+        constructed with the factor;
+    (b) a controller built for one alpha and retuned to another (params.alpha + set_G_inv on every step) must behave
+        like a freshly built one: sequential-collocation values, iteration bound."""
+    H = I['H']
+    get_sorted = I['get_sorted']
+    nsweepers = 4 if ck.tier == 'quick' else 24
+    worst = 0.0
+    worst_fresh = 0.0
+    for _ in range(nsweepers):
+        try:
+            pp, dt = random_problem(ck, 'dahl')
+            M = ck.rng.choice([1, 2, 3, 4, 5])
+            c = build_controller(I, 'dahl', pp, 1, M, 10.0 ** (-ck.rng.uniform(0.3, 6)), dt, -1.0, False, hooks=False)
+            A, As, _ = problem_matrices(I, c)
+            n = A.shape[0]
+            lvl = c.MS[0].levels[0]
+            sw = lvl.sweep
+            Q = np.asarray(sw.coll.Qmat[1:, 1:], dtype=float)
+            sp_ = {'num_nodes': M, 'quad_type': 'RADAU-RIGHT'}
+            walk = []
+            for _k in range(3):
+                L = ck.rng.choice([1, 2, 3, 4, 5, 8, 16])
+                alpha = 10.0 ** (-ck.rng.uniform(0.3, 8))
+                ls = list(range(L)) if L <= 4 else ck.rng.sample(range(L), 4)
+                walk += [(L, alpha, l) for l in ls]
+            walk += [walk[0], walk[0], walk[len(walk) // 2]]       # idempotence, return to an earlier factor
+            fresh_at = set(ck.rng.sample(range(len(walk)), 2))
+            for pos, (L, alpha, l) in enumerate(walk):
+                G_inv = np.asarray(H.get_G_inv_matrix(l, L, alpha, sp_))
+                sw.set_G_inv(G_inv)
+                r = np.array([[complex(ck.rng.uniform(-1, 1), ck.rng.uniform(-1, 1)) for _ in range(n)] for _ in range(M)])
+                x_live = live_update_nodes(lvl, r)
+                _, _, d, _, _, _ = model_closed_forms(L, alpha, mp)
+                x_ref = exact_local_solve(mp, M, n, d[l], Q, As, dt, r)
+                condS = float(np.linalg.cond(sw.S))
+                e = float(np.abs(x_live - x_ref).max() / np.abs(x_ref).max())
+                worst = max(worst, e / max(1.0, condS))
+                stored = np.array_equal(np.asarray(sw.params.G_inv), G_inv)
+                replay = {'problem': 'dahl', 'problem_params': pp_repr(pp), 'dt': dt, 'num_nodes': M,
+                          'sequence_of_set_G_inv_calls (n_steps, alpha, step)': [list(x) for x in walk[:pos + 1]],
+                          'residual': [[str(v) for v in row] for row in r], 'rel_err': e, 'params_G_inv_is_argument': bool(stored)}
+                ck.case(key=('setG', M, L, l, round(math.log10(alpha), 3), pos), nontrivial=pos > 0,
+                        sample={'set_G_inv_walk': {'num_nodes': M, 'position': pos, 'n_steps': L, 'step': l, 'alpha': alpha, 'rel_err': e}})
+                ck.traces += 1
+                if not stored:
+                    ck.violation('after set_G_inv(g) the factor update_nodes multiplies with (params.G_inv) is not g', replay,
+                                 match={'kind': 'set_G_inv', 'what': 'stored-factor'})
+                if not (e <= TOL_SWEEP * max(1.0, condS)):
+                    ck.violation('after set_G_inv(g) update_nodes does not solve (g^-1 (x) I - dt Q (x) A) x = r (rel. err %.3e): '
+                                 'the local solve depends on an earlier configuration of the sweeper' % e, replay,
+                                 match={'kind': 'set_G_inv', 'what': 'one-shot'})
+                if pos in fresh_at:
+                    cf = build_controller(I, 'dahl', pp, L, M, alpha, dt, -1.0, False, hooks=False)
+                    x_fresh = live_update_nodes(cf.MS[l].levels[0], r)
+                    ef = float(np.abs(x_live - x_fresh).max() / np.abs(x_fresh).max())
+                    worst_fresh = max(worst_fresh, ef)
+                    if not (ef <= 1e-12):
+                        ck.violation('sweeper reconfigured with set_G_inv differs from a sweeper constructed with the same factor (rel. diff %.3e)' % ef,
+                                     dict(replay, rel_diff_to_fresh=ef), match={'kind': 'set_G_inv', 'what': 'frame'})
+        except Exception as ex:
+            ck.violation('set_G_inv walk raised %s: %s' % (type(ex).__name__, str(ex)[:200]),
+                         {'seed': ck.seed, 'locals': {k: str(v)[:300] for k, v in locals().items() if k in ('pp', 'dt', 'M', 'walk')}},
+                         match={'kind': 'exception', 'stage': 'set_G_inv', 'exception': type(ex).__name__})
+    ck.cov['set_G_inv_walk_max_rel_error_over_condS'] = worst
+    ck.cov['set_G_inv_vs_fresh_max_rel_diff'] = worst_fresh
+    # (b) retuned controller
+    nret = 4 if ck.tier == 'quick' else 24
+    worst_r = 0.0
+    for idx in range(nret):
+        try:
+            kind = ['dahl', 'heat', 'dahl_imex', 'adv'][idx % 4]
+            pp, dt = random_problem(ck, kind)
+            if 'nvars' in pp:
+                pp['nvars'] = 8 if pp.get('bc') == 'periodic' else 7
+            L = ck.rng.choice([2, 3, 4, 6, 8])
+            M = ck.rng.choice([1, 2, 3, 4])
+            alpha0 = 10.0 ** (-ck.rng.uniform(0.7, 1.5))
+            alpha1 = 10.0 ** (-ck.rng.uniform(2.5, 5))
+            if idx % 2:
+                alpha0, alpha1 = alpha1, alpha0
+            maxiter = 60
+            c = build_controller(I, kind, pp, L, M, alpha0, dt, RESTOL, False, maxiter=maxiter)
+            c.params.alpha = alpha1
+            sp_ = {'num_nodes': M, 'quad_type': 'RADAU-RIGHT'}
+            for l in range(L):
+                c.MS[l].levels[0].sweep.set_G_inv(np.asarray(H.get_G_inv_matrix(l, L, alpha1, sp_)))
+            A, As, forcing = problem_matrices(I, c)
+            lvl0 = c.MS[0].levels[0]
+            u0 = lvl0.prob.u_exact(0.0)
+            u0c = np.asarray(u0, dtype=complex).flatten()
+            with warnings.catch_warnings():
+                warnings.simplefilter('ignore')
+                with time_limit(30):
+                    uend, stats = c.run(u0=u0, t0=0.0, Tend=L * dt)
+            niter = max(me[1] for me in get_sorted(stats, type='niter'))
+            Q = np.asarray(lvl0.sweep.coll.Qmat[1:, 1:], dtype=float)
+            ref = sequential_oracle(Q, lvl0.sweep.coll.nodes, A, forcing, dt, u0c, 0.0, L)
+            scale = max(1.0, max(np.abs(U).max() for U in ref))
+            e = max(np.abs(np.asarray(c.MS[l].levels[0].u[m + 1]).flatten() - ref[l][m]).max() for l in range(L) for m in range(M)) / scale
+            replay = {'problem': kind, 'problem_params': pp_repr(pp), 'dt': dt, 'n_steps': L, 'num_nodes': M,
+                      'alpha_at_construction': alpha0, 'alpha_after_retuning (params.alpha + set_G_inv on every step)': alpha1,
+                      'niter': int(niter), 'err': float(e)}
+            ck.case(key=('retune', kind, L, M, round(math.log10(alpha0), 3), round(math.log10(alpha1), 3)), nontrivial=True,
+                    sample={'retuned_controller': {k: replay[k] for k in ('problem', 'n_steps', 'num_nodes', 'niter', 'err')}})
+            ck.traces += 1
+            worst_r = max(worst_r, float(e)) if niter < maxiter else worst_r
+            imex = kind in ('dahl_imex', 'heatf')
+            rate = alpha1 / (1 - alpha1)
+            bound = math.ceil(math.log(RESTOL * 1e-3) / math.log(rate)) + 3
+            if niter >= maxiter:
+                ck.violation('ParaDiag controller retuned from alpha=%.3g to alpha=%.3g did not converge within %d iterations' % (alpha0, alpha1, maxiter),
+                             replay, match={'kind': 'set_G_inv', 'what': 'retuned-controller', 'imex': imex})
+            elif not (e <= TOL_RUN):
+                ck.violation('retuned ParaDiag controller differs from sequential collocation time stepping (rel. err %.3e)' % e,
+                             replay, match={'kind': 'set_G_inv', 'what': 'retuned-controller', 'imex': imex})
+            elif not imex and niter > bound:
+                ck.violation('retuned ParaDiag controller needed %d iterations, alpha/(1-alpha) of the new alpha allows %d' % (niter, bound),
+                             replay, match={'kind': 'set_G_inv', 'what': 'retuned-controller', 'imex': imex})
+        except Exception as ex:
+            ck.violation('retuned controller raised %s: %s' % (type(ex).__name__, str(ex)[:200]),
+                         {'seed': ck.seed, 'locals': {k: str(v)[:300] for k, v in locals().items() if k in ('kind', 'pp', 'dt', 'L', 'M', 'alpha0', 'alpha1')}},
+                         match={'kind': 'exception', 'stage': 'retuned-controller', 'exception': type(ex).__name__})
+    ck.cov['retuned_controller_max_rel_error'] = worst_r
 
 
 # ----------------------------------------------------------------------------- O3 one iteration solves alpha-system
@@ -762,6 +917,8 @@ def run(ck):
     check_model_iteration(ck, I)
     ck.log('sweeper one-shot')
     check_sweeper_one_shot(ck, I, mp)
+    ck.log('set_G_inv: reconfigured sweepers / retuned controllers')
+    check_set_G_inv(ck, I, mp)
     ck.log('increment solves alpha-circulant system')
     check_increment_system(ck, I)
     ck.log('converged runs vs sequential collocation')
